@@ -285,7 +285,7 @@ static int scan_line(npd_scan_state_t *nssp)
 	case 'p':
 	    if (strcmp(&FIELD(nssp, 0)[2], "parameters") == 0) {
 		/* special-case: join the parameter fields by comma */
-		for (size_t s = 3; s < nssp->nss_field_count; ++s) {
+		for (size_t s = 2; s < nssp->nss_field_count; ++s) {
 		    FIELD(nssp, s)[-1] = ',';
 		}
 		nssp->nss_field_count = 2;
@@ -704,6 +704,9 @@ int _vnadata_load_npd(vnadata_internal_t *vdip, FILE *fp, const char *filename)
 	case VPT_S:
 	    switch (vfdp->vfd_format) {
 	    case VNADATA_FORMAT_IL:
+		fields = ports * (ports - 1);
+		break;
+
 	    case VNADATA_FORMAT_RL:
 	    case VNADATA_FORMAT_VSWR:
 		fields = ports;
